@@ -1159,6 +1159,39 @@ func c02Directed() map[string][]Ev {
 	}
 }
 
+// what the decoder (no validator) makes of a document: the events, or "error"
+func c02ReadString(doc []byte) string {
+	evs, err := c02Decode(doc, false)
+	if err != nil {
+		return "error"
+	}
+	return evsString(evs)
+}
+
+type c02DDoc struct{ doc, want, key string }
+
+// the witnesses of the reader defects repaired in /repo (601f9e0, 6b24587, 9d7e9c8) with the repaired reading;
+// want "" = correspondence case only
+func c02DirectedDocs() []c02DDoc {
+	lz := "C02/reader/decimal-leading-zero"
+	cp := "C02/reader/codepoint-not-scalar"
+	return []c02DDoc{
+		{"c0 010", "bd v:0 i:10 ed", lz}, {"c0 -010", "bd v:0 i:-10 ed", lz}, {"c0 08", "bd v:0 i:8 ed", lz}, {"c0 09", "bd v:0 i:9 ed", lz},
+		{"c0 0_8", "bd v:0 i:8 ed", lz}, {"c0 0_10", "bd v:0 i:10 ed", lz}, {"c0 -0_10", "bd v:0 i:-10 ed", lz},
+		{"c0 00", "bd v:0 i:0 ed", lz}, {"c0 -00", "bd v:0 ni:0 ed", lz}, {"c0 0007", "bd v:0 i:7 ed", lz},
+		{"c0 01__20_105", "bd v:0 i:120105 ed", lz}, {"c0 0o10", "bd v:0 i:8 ed", lz}, {"c0 0x10", "bd v:0 i:16 ed", lz}, {"c0 0b10", "bd v:0 i:2 ed", lz},
+		{"c0 00018446744073709551616", "bd v:0 bi:18446744073709551616 ed", lz},
+		{"c0 @i8[010]", "bd v:0 a:11:1:0a ed", lz},
+		{"c0 @u32[0008]", "bd v:0 a:9:1:08000000 ed", lz},
+		{"c0 @i16[-010 0x10 0o10 0b10 09]", "bd v:0 a:12:5:f6ff1000080002000900 ed", lz},
+		{"c0 @u8[0_10]", "bd v:0 a:7:1:0a ed", lz}, {"c0 @u8[00_8]", "bd v:0 a:7:1:08 ed", lz}, {"c0 @i8[-0_8]", "bd v:0 a:11:1:f8 ed", lz},
+		{"c0 @i16[-0__0_10 0_x10]", "error", lz},
+		{"c0 @08[fa 9c]", "bd v:0 cb:8:fa9c ed", lz}, {"c0 @010[01]", "bd v:0 cb:10:01 ed", lz}, {"c0 @09\"a\"", "bd v:0 ct:9:61 ed", lz},
+		{"c0 \"\\[d800]\"", "error", cp}, {"c0 \"\\[dfff]\"", "error", cp}, {"c0 \"\\[110000]\"", "error", cp}, {"c0 \"\\[ffffffff]\"", "error", cp},
+		{"c0 \"\\[d7ff]\\[e000]\\[10ffff]\"", "bd v:0 a:1:10:ed9fbfee8080f48fbfbf ed", cp},
+	}
+}
+
 // every integer array type with its boundary elements, and empty
 func c02IntArrays() []Ev {
 	out := []Ev{}
@@ -1215,7 +1248,7 @@ func c02TimeEvents(r *rand.Rand, n int) []Ev {
 // ---------------------------------------------------------------------------
 
 func runC02(c *Ctx) {
-	c.Rep.Rule = "oracle (ce.NewRules -> ce.NewCTEEncoder -> text -> ce.NewCTEDecoder -> ce.NewRules -> recorder, denotations equal up to padding): rules-valid streams from the tree generator with every option on (comments, padding, markers/references, records, edges, nodes, media, custom binary and text, big numbers, times with every zone form, chunked arrays, Unicode text; multi-line comments made representable), the same with inexact big floats, directed streams (integer and float edges, comments with every delimiter-like content, one stream per known finding), strings / resource ids / custom text / comments / identifiers over every code point at a class boundary of the lexer's three tables (read off the generated lexer) and every code point below U+0100, every latitude and every longitude hundredth (thorough; every 37th in quick), random times; model assumption: the float computation of coordinate hundredths is exact on all 222,000 coordinate texts the grammar allows. correspondence (decoder without validator, exact events): encoder text of those streams together with the encoder model's text and the denotation comparison, grammar-driven documents using every spelling of CTELexer.g4 / CTEParser.g4 (a quarter of them deliberately damaged), single scalars, byte mutations of both; non-trivial = a stream of more than 4 events or a document the decoder accepts with more than 4 events; distinct by event text / document text"
+	c.Rep.Rule = "oracle (ce.NewRules -> ce.NewCTEEncoder -> text -> ce.NewCTEDecoder -> ce.NewRules -> recorder, denotations equal up to padding): rules-valid streams from the tree generator with every option on (comments, padding, markers/references, records, edges, nodes, media, custom binary and text, big numbers, times with every zone form, chunked arrays, Unicode text; multi-line comments made representable), the same with inexact big floats, directed streams (integer and float edges, comments with every delimiter-like content, one stream per known finding), strings / resource ids / custom text / comments / identifiers over every code point at a class boundary of the lexer's three tables (read off the generated lexer) and every code point below U+0100, every latitude and every longitude hundredth (thorough; every 37th in quick), random times; model assumption: the float computation of coordinate hundredths is exact on all 222,000 coordinate texts the grammar allows. correspondence (decoder without validator, exact events): encoder text of those streams together with the encoder model's text and the denotation comparison, directed documents for the reader conversions repaired in /repo (decimal leading zeros in values, array elements and custom type codes; code point escapes that are not scalar values; their expected reading is also an oracle check), grammar-driven documents using every spelling of CTELexer.g4 / CTEParser.g4 (a quarter of them deliberately damaged), single scalars, byte mutations of both; non-trivial = a stream of more than 4 events or a document the decoder accepts with more than 4 events; distinct by event text / document text"
 
 	k := &c02Corr{c: c, cf: c.Cases("cteread", "CE.Model.CteRead", "cteread_case", "cteread_case_ok"), max: c.Pick(1900, 24000)}
 	k.cf.perFile = 250
@@ -1250,6 +1283,20 @@ func runC02(c *Ctx) {
 		if text != nil {
 			k.addRound(es, text, "round-directed")
 			texts = append(texts, text)
+		}
+	}
+
+	// ---- 2b. directed documents: the reader's conversions repaired in /repo (601f9e0 and 6b24587: decimal integers with leading
+	// zeros, in values, in implicit-base array elements and in custom type codes; 9d7e9c8: code point escapes that
+	// are not scalar values).  Each is a correspondence case, and the expected reading is checked here so that a
+	// regression of the implementation is a failure of its own key.
+	for _, d := range c02DirectedDocs() {
+		doc := []byte(d.doc)
+		k.addDoc(doc, "directed-doc")
+		got := c02ReadString(doc)
+		c.Count("ddoc|"+d.doc, true)
+		if d.want != "" && got != d.want {
+			c.Fail(Replay{Kind: "reader", Key: d.key, Input: map[string]string{"document": d.doc}, Expect: d.want, Got: got})
 		}
 	}
 
@@ -1398,6 +1445,10 @@ func sortedStringKeys(m map[string][]Ev) []string {
 func replayC02(r *Replay) (bool, string) {
 	if r.Kind == "assumption" {
 		return false, "model assumption check; re-run the check"
+	}
+	if r.Kind == "reader" {
+		got := c02ReadString([]byte(r.Input["document"]))
+		return got == r.Expect, fmt.Sprintf("document %q: expected %q, got %q", r.Input["document"], r.Expect, got)
 	}
 	var es []Ev
 	var err error
